@@ -8,6 +8,11 @@ tokenRecord : what the DHT holds under the caller's token key: absent | empty | 
 body        : valid | empty | garbage | json       (ignored by the model: the gate never reads it)
 datagram    : ok | fail                            (outcome of the RegisterIdentity test datagram)
 code        : ok | <twirp code> | panic (HTTP 500 without twirp body);  changed: DHT snapshot differs or a mutating KV call was made
+
+`callcn <Method> <hex CommonName> <records> <body> <datagram> => <code> <changed 0|1>`
+the caller presents a verified certificate with exactly this CommonName (it goes through the REAL
+pki.ExtractCertificateIdentity); records = `-` or a comma list `<hex token>=<tokenRecord>`: every client-token
+record in the DHT apart from the fixed victim fixture (whose token never occurs in a CommonName).
 -/
 namespace Specter.C25
 open Specter.Util
@@ -32,19 +37,18 @@ def parseRec (r : String) : Option TokenRec :=
   | "oldclient" => some (.client true)
   | _ => none
 
-/-- the driver's DHT: just the record of the single caller token plus a dirty flag. -/
+/-- the driver's DHT: the token records (absent = no entry) plus a dirty flag. -/
 structure DSt where
-  trec : TokenRec
+  recs : List (String × TokenRec)
   dirty : Bool
 deriving DecidableEq
 
 def DW : World DSt where
-  tokenRec st _ := st.trec
-  saveToken _ _ := { trec := .client false, dirty := true }
+  tokenRec st t := match st.recs.find? (·.1 == t) with | some (_, r) => r | none => .absent
+  saveToken st t := { recs := (t, .client false) :: st.recs.filter (·.1 != t), dirty := true }
 
 /-- expected observable outcome; `none` = an authorized call reached a handler the model does not describe. -/
-def expected (m : String) (c : Caller) (rec : TokenRec) (dgramOk : Bool) : Option String :=
-  let st0 : DSt := ⟨rec, false⟩
+def expectedSt (m : String) (c : Caller) (st0 : DSt) (dgramOk : Bool) : Option String :=
   if m ∉ allMethods then some "bad_route 0"
   else match gate DW Gen.C25.allowList m c st0 with
     | (_, some code) => some (code ++ " 0")
@@ -55,6 +59,9 @@ def expected (m : String) (c : Caller) (rec : TokenRec) (dgramOk : Bool) : Optio
         | (_, .err code) => some (code ++ " 0")
         | (_, _) => some "ok 1"
       else none
+
+def expected (m : String) (c : Caller) (rec : TokenRec) (dgramOk : Bool) : Option String :=
+  expectedSt m c ⟨[("t", rec)], false⟩ dgramOk
 
 /-- the property statement: apart from Ping and RegisterIdentity, a caller without verified certificate
 (or no delegation) or with a never-registered token gets an error and the DHT does not change. -/
@@ -70,6 +77,67 @@ def specCheck (m caller rec code changed : String) : Option String :=
     else none
   else none
 
+/-! ### `callcn`: the property statement over certificate subjects
+
+The statement's notion of "the caller's token", written independently of the model's `cut`/`subjectParts`:
+split the CommonName at every separator; a v1 subject `v1:<number>:<token>` carries the re-joined remainder
+(all of it), a v2 subject `v2:<number>:…` carries the entire CommonName; anything else is no identity. -/
+
+def isNumber (s : String) : Bool :=
+  !s.isEmpty && s.toList.all (fun c => '0' ≤ c && c ≤ '9') && (s.toNat?.getD (2 ^ 64)) < 2 ^ 64
+
+def specToken (cn : String) : Option String :=
+  match cn.splitOn ":" with
+  | v :: id :: t :: rest =>
+    if !isNumber id then none
+    else if v = "v1" then some (":".intercalate (t :: rest))
+    else if v = "v2" then some cn
+    else none
+  | _ => none
+
+def parseRecs (s : String) : Option (List (String × String)) :=
+  if s = "-" then some [] else
+  (s.splitOn ",").mapM fun item =>
+    match item.splitOn "=" with
+    | [h, k] => (hexToAscii h).map (·, k)
+    | _ => none
+
+/-- never registered: no entry under the token key, an empty value, or (on top) a failing lookup. -/
+def neverRegistered (recs : List (String × String)) (t : String) : Bool :=
+  match recs.find? (·.1 == t) with
+  | none => true
+  | some (_, k) => k == "absent" || k == "empty" || k == "kverr" || k == "kverr-retryable"
+
+def specCheckCN (m : String) (cn : String) (recs : List (String × String)) (code changed : String) : Option String :=
+  let gated := m ∈ allMethods ∧ m ≠ "Ping" ∧ m ≠ "RegisterIdentity"
+  if ¬ gated then none else
+  let why : Option String :=
+    match specToken cn with
+    | none => some "a caller whose certificate subject is no client identity"
+    | some t => if neverRegistered recs t then
+        some ("a caller whose token \"" ++ t ++ "\" was never registered (client records: "
+          ++ ", ".intercalate ((recs.filter (fun r => !neverRegistered recs r.1)).map (fun r => "\"" ++ r.1 ++ "\"")) ++ ")")
+      else none
+  match why with
+  | none => none
+  | some w =>
+    if code = "ok" then some (w ++ " was served")
+    else if changed ≠ "0" then some (w ++ " was refused but the call changed the DHT")
+    else none
+
+def judge (m : String) (c : Caller) (st0 : DSt) (body : String) (dgramOk : Bool) (rhs : String) : Verdict :=
+  match expectedSt m c st0 dgramOk with
+  | some e =>
+    -- a garbage body that reaches the (allow-listed) handler stage is rejected by twirp as `malformed`
+    -- unless it happens to decode; the gate itself never looks at the body
+    let passed := (gate DW Gen.C25.allowList m c st0).2.isNone ∧ m ∈ allMethods
+    if e = rhs ∨ (passed ∧ body = "garbage" ∧ rhs = "malformed 0") then .ok else .diff e
+  | none =>
+    -- the model lets this caller through the gate to a handler it does not describe: whatever the handler
+    -- answers, it is not the gate's refusal (authorized_passes)
+    let code := (rhs.splitOn " ").headD ""
+    if code = "unauthenticated" ∨ code = "panic" ∨ code = "bad_route" then .diff "passes-the-gate" else .ok
+
 def step (_ : Unit) (toks : List String) (rhs : String) : Unit × Verdict :=
   match toks with
   | ["reset"] => ((), .ok)
@@ -78,15 +146,18 @@ def step (_ : Unit) (toks : List String) (rhs : String) : Unit × Verdict :=
     | some c, some r, [code, changed] =>
       match specCheck m caller rec code changed with
       | some why => ((), .spec why)
-      | none =>
-        match expected m c r (dgram == "ok") with
-        | some e =>
-          -- a garbage body that reaches the (allow-listed) handler stage is rejected by twirp as `malformed`
-          -- unless it happens to decode; the gate itself never looks at the body
-          let passed := (gate DW Gen.C25.allowList m c ⟨r, false⟩).2.isNone ∧ m ∈ allMethods
-          if e = rhs ∨ (passed ∧ body = "garbage" ∧ rhs = "malformed 0") then ((), .ok) else ((), .diff e)
-        | none => ((), .ok)
+      | none => ((), judge m c ⟨[("t", r)], false⟩ body (dgram == "ok") rhs)
     | _, _, _ => ((), .bad "call args")
+  | ["callcn", m, cnhex, recs, body, dgram] =>
+    match hexToAscii cnhex, parseRecs recs, rhs.splitOn " " with
+    | some cn, some rs, [code, changed] =>
+      match rs.mapM (fun r => (parseRec r.2).map (r.1, ·)) with
+      | none => ((), .bad "callcn record kind")
+      | some trs =>
+        match specCheckCN m cn rs code changed with
+        | some why => ((), .spec why)
+        | none => ((), judge m (callerOfSubject cn.toList) ⟨trs, false⟩ body (dgram == "ok") rhs)
+    | _, _, _ => ((), .bad "callcn args")
   | _ => ((), .bad "unknown op")
 
 def main : IO Unit := runLoop () step
